@@ -182,7 +182,7 @@ def prepare_spec_dir(scratch, sub="spec"):
 def run_tlc(specdir, module, cfg, workers=1, extra=None, timeout=1800, heap="8g", deadlock=None, dfs=False, stack=None):
     """Run TLC on <module>.tla with <cfg> inside specdir (a scratch copy)."""
     meta = tempfile.mkdtemp(prefix="tlcmeta-", dir=os.path.dirname(specdir))
-    jopts = ["-XX:+UseParallelGC", "-Xmx" + heap]
+    jopts = ["-XX:+UseParallelGC", "-Xmx" + heap, "-Djava.io.tmpdir=" + os.path.dirname(specdir)]   # TLC unpacks its modules into java.io.tmpdir
     if stack:
         jopts.append("-Xss" + stack)
     if dfs:
